@@ -171,4 +171,14 @@ theorem c15_gen_copy_bounds_current_table :
   exact ⟨by rfl, by rfl, by rfl, fun _ _ => rfl⟩
 
 
+/-- one bucket-index formula at all four sites: where Get searches is where Compute wrote and where a resize copied to; for
+    a power-of-two table it is h1(hash) mod len, inside the table -/
+theorem c15_gen_bucket_index (len hash : BitVec 64) (k : Nat) (hk : k ≤ 62) (hlen : len.toNat = 2 ^ k) :
+    let i := Gen.MapSites.Map_Compute_a6 (Gen.MapSites.Map_Compute_a3 hash) len
+    Gen.MapSites.Map_Get_a4 (Gen.MapSites.Map_Get_a2 hash) len = i ∧
+    Gen.MapSites.Map_copyBucket_a4 hash len = i ∧ Gen.MapSites.Map_copyBucketWithDestLock_a4 hash len = i ∧
+    i.toNat = (Gen.MapSites.h_h1 hash).toNat % 2 ^ k ∧ i.toNat < len.toNat :=
+  Proofs.MapGen.bucket_index_same len hash k hk hlen
+
+
 end OtterVerif.Props.C15
